@@ -1532,7 +1532,7 @@ theorem shaped_feed {P acc rs cur} (sh : Shaped (α := α) P acc rs cur) (op : L
 theorem r1_right {nL nR : Nat} {futL futR : List (Batch α)} {L R : Side α} {fm : Bool}
     {qL q : List (Batch α)} {S : Noir.Start.State} {acc : List (Elem (Bin α))} {fL tL fR r : Nat}
     {es : List (Elem α)}
-    (c : Common nL nR L R S) (h : R1Rel nL nR futL futR L R fm qL ((r, es) :: q) S acc fL tL fR) (hfr : fR < nR) :
+    {r0 : Nat} (c : Common nL nR L R S) (h : R1Rel nL nR futL futR L R fm qL ((r0, es) :: q) S acc fL tL fR) (hfr : fR < nR) :
     (R.process Bin.right Bin.rightEnd r es).2.2 = false
     ∧ InvC nL nR futL futR L (R.process Bin.right Bin.rightEnd r es).1 fm qL q
         (feed S (R.process Bin.right Bin.rightEnd r es).2.1.1 (R.process Bin.right Bin.rightEnd r es).2.1.2).1
@@ -1620,7 +1620,7 @@ theorem term_batch {es : List (Elem α)} (hk : batchKind es = some (false, true)
 theorem play_right {nL nR : Nat} {futL futR : List (Batch α)} {L R : Side α} {fm : Bool}
     {qL q : List (Batch α)} {S : Noir.Start.State} {acc : List (Elem (Bin α))} {fR r : Nat}
     {es : List (Elem α)}
-    (c : Common nL nR L R S) (h : PlayRel nL nR futR L R fm ((r, es) :: q) S acc L.cache.length fR) (hfr : fR < nR) :
+    {r0 : Nat} (c : Common nL nR L R S) (h : PlayRel nL nR futR L R fm ((r0, es) :: q) S acc L.cache.length fR) (hfr : fR < nR) :
     (R.process Bin.right Bin.rightEnd r es).2.2 = false
     ∧ InvC nL nR futL futR L (R.process Bin.right Bin.rightEnd r es).1 fm qL q
         (feed S (R.process Bin.right Bin.rightEnd r es).2.1.1 (R.process Bin.right Bin.rightEnd r es).2.1.2).1
@@ -1717,7 +1717,7 @@ theorem right_term {nL nR : Nat} {L R : Side α} {S : Noir.Start.State} {r t : N
 /-- between two rounds, the first loop-side batch arrives: a new round is opened, or the loop has ended -/
 theorem wait_first {nL nR : Nat} {futL futR : List (Batch α)} {L R : Side α} {fm : Bool}
     {qL q : List (Batch α)} {S : Noir.Start.State} {acc : List (Elem (Bin α))} {r : Nat} {es : List (Elem α)}
-    (c : Common nL nR L R S) (h : WaitRel nL nR futR L R fm ((r, es) :: q) S acc) :
+    {r0 : Nat} (c : Common nL nR L R S) (h : WaitRel nL nR futR L R fm ((r0, es) :: q) S acc) :
     (R.process Bin.right Bin.rightEnd r es).2.2 = false
     ∧ InvC nL nR futL futR L (R.process Bin.right Bin.rightEnd r es).1 false qL q
         (feed S (R.process Bin.right Bin.rightEnd r es).2.1.1 (R.process Bin.right Bin.rightEnd r es).2.1.2).1
@@ -1784,7 +1784,7 @@ theorem wait_first {nL nR : Nat} {futL futR : List (Batch α)} {L R : Side α} {
 /-- the loop has ended, one more loop-side `Terminate` arrives -/
 theorem term_right {nL nR : Nat} {futL futR : List (Batch α)} {L R : Side α} {fm : Bool}
     {qL q : List (Batch α)} {S : Noir.Start.State} {acc : List (Elem (Bin α))} {r t : Nat} {es : List (Elem α)}
-    (c : Common nL nR L R S) (h : TermRel nL nR futR L R fm ((r, es) :: q) S acc t) :
+    {r0 : Nat} (c : Common nL nR L R S) (h : TermRel nL nR futR L R fm ((r0, es) :: q) S acc t) :
     (R.process Bin.right Bin.rightEnd r es).2.2 = false
     ∧ InvC nL nR futL futR L (R.process Bin.right Bin.rightEnd r es).1 fm qL q
         (feed S (R.process Bin.right Bin.rightEnd r es).2.1.1 (R.process Bin.right Bin.rightEnd r es).2.1.2).1
@@ -1817,5 +1817,476 @@ theorem term_synth {nL nR : Nat} {futR : List (Batch α)} {L R : Side α} {fm : 
   obtain ⟨rs, sh, hne0⟩ := h.sh
   refine ⟨by rw [g3, hST]; omega, rs, ⟨by simp, sh.clean, by intro e he; simp at he, sh.same⟩, hne0, ?_⟩
   rw [g4, if_pos hST.symm, sh.eq]; simp
+
+theorem cacheEls_take_succ (c : List (Batch (Bin α))) (p : Nat) (hp : p < c.length) :
+    cacheEls (c.take (p + 1)) = cacheEls (c.take p) ++ (c.getD p (0, [])).2 := by
+  have : c[p]? = some c[p] := List.getElem?_eq_getElem hp
+  unfold cacheEls
+  rw [List.take_add_one, List.flatMap_append, this]
+  simp [List.getD_eq_getElem?_getD, this]
+
+theorem cacheEls_take_drop (c : List (Batch (Bin α))) (p : Nat) :
+    cacheEls c = cacheEls (c.take p) ++ cacheEls (c.drop p) := by
+  unfold cacheEls; rw [← List.flatMap_append, List.take_append_drop]
+
+theorem cacheEls_all_empty (c : List (Batch (Bin α))) (h : ∀ b ∈ c, b.2 = []) : cacheEls c = [] := by
+  unfold cacheEls
+  induction c with
+  | nil => rfl
+  | cons b c ih =>
+    simp only [List.flatMap_cons, h b (by simp), List.nil_append]
+    exact ih (fun x hx => h x (by simp [hx]))
+
+/-- a later round, the next cached batch is replayed and consumed by `Start` -/
+theorem play_replay {nL nR : Nat} {futL futR : List (Batch α)} {L R : Side α} {fm : Bool}
+    {qL qR : List (Batch α)} {S : Noir.Start.State} {acc : List (Elem (Bin α))} {p fR : Nat}
+    (c : Common nL nR L R S) (h : PlayRel nL nR futR L R fm qR S acc p fR) (hp : p < L.cache.length) :
+    InvC nL nR futL futR L.nextCached.1 R fm qL qR
+      (feed S L.nextCached.2.1 L.nextCached.2.2).1 (acc ++ (feed S L.nextCached.2.1 L.nextCached.2.2).2) := by
+  have hb : L.nextCached.2 = L.cache.getD p (0, []) := by simp [Side.nextCached, h.ptr]
+  have hmem : L.cache.getD p (0, []) ∈ L.cache := by
+    rw [List.getD_eq_getElem?_getD, List.getElem?_eq_getElem hp]; simp
+  obtain ⟨dd, hf, hb2, hdd⟩ := c.shapes _ hmem
+  have htk := cacheEls_take_succ L.cache p hp
+  rw [hb2] at htk
+  have hfars : farsIn (cacheEls (L.cache.take (p + 1))) = farsIn (cacheEls (L.cache.take p)) + b2n hf := by
+    rw [htk, farsIn_append, farsIn_append, farsIn_clean _ hdd, farsIn_tail]; omega
+  have hle := farsIn_take_le L.cache (p + 1)
+  rw [h.cf, hfars] at hle
+  have hlive : S.missingTerm ≠ 0 := by rw [c.sT]; have := c.nLpos; omega
+  have hbn : hf = true → b2n hf = 1 := by intro e; subst e; rfl
+  obtain ⟨g1, g2, g3, op, g4, g5, g6⟩ :=
+    feed_batch S (L.cache.getD p (0, [])).1 dd hf nL nR ((nL - farsIn (cacheEls (L.cache.take p))) + (nR - fR))
+      hdd hlive c.sn h.sf (by intro e; have := hbn e; omega)
+  rw [hb, hb2, g6]
+  -- the side after `next_cached_item`
+  have hL1 : L.nextCached.1.cache = L.cache := by simp
+  have hptr : L.nextCached.1.cachePointer = p + 1 := by rw [nextCached_pointer, h.ptr]
+  have hmf : L.nextCached.1.missingFar = (if p + 1 = L.cache.length then 0 else nL) := by
+    unfold Side.nextCached
+    simp only [Side.cacheFinished, h.ptr]
+    by_cases hl : p + 1 = L.cache.length
+    · simp [hl]
+    · have : ¬ (L.cache.length ≤ p + 1) := by omega
+      simp [this, hl, h.lf]; omega
+  apply InvC.play (p + 1) fR
+  · exact ⟨c.nLpos, c.nRpos, by simp [c.lc], c.rc, by simp [Side.nextCached]; split <;> exact c.li, c.ri, c.rcache, c.rptr,
+      g1, by rw [g2]; exact c.sT, by rw [hL1]; exact c.shapes, by rw [hL1]; exact c.post⟩
+  · obtain ⟨rs, cur, sh, hne0, s1, s2⟩ := h.sh
+    have hPeq : cacheP L.nextCached.1 = cacheP L := by simp [cacheP]
+    refine ⟨by rw [nextCached_full]; exact h.full, hptr, by rw [hL1]; omega, by rw [hL1]; exact hmf,
+      by simp [h.lt], by rw [hL1]; exact h.cf, h.rf, h.rn, h.rt, h.fm, ?_, h.cr, ?_⟩
+    · rw [g3, hL1, hfars]; congr 1; omega
+    · rw [hL1, hPeq, hfars]
+      by_cases hs0 : (nL - farsIn (cacheEls (L.cache.take p))) + (nR - fR) = 0
+      · -- the round is closed already: the rest of the cache is empty
+        have hfull : farsIn (cacheEls (L.cache.take p)) = nL := by
+          have := farsIn_take_le L.cache p; rw [h.cf] at this; omega
+        have hmd : L.cache.getD p (0, []) ∈ L.cache.drop p := by
+          have hd : L.cache.drop p = L.cache[p] :: L.cache.drop (p + 1) := List.drop_eq_getElem_cons hp
+          rw [List.getD_eq_getElem?_getD, List.getElem?_eq_getElem hp]
+          show L.cache[p] ∈ L.cache.drop p
+          rw [hd]; exact List.mem_cons_self
+        have hemp := c.post p hfull _ hmd
+        have hf0 : hf = false := by cases hf <;> simp [b2n] at hle ⊢; omega
+        subst hf0
+        have hdd0 : dd = [] := by rw [hb2] at hemp; simpa using hemp
+        subst hdd0
+        have hop : op = [] := by have h6 := g6; simpa [feed] using h6.symm
+        subst hop
+        have hcur := s2 hs0
+        subst hcur
+        refine ⟨rs, [], by simpa using sh, hne0, ?_, ?_⟩
+        · intro hne; simp [b2n] at hne; omega
+        · intro _; rfl
+      · have c2 := s1 hs0
+        have hpo : presented true (cur ++ op) = presented true (cacheEls (L.cache.take (p + 1))) := by
+          rw [presented_append, c2, g5 true, htk, presented_append, presented_append, presented_tail]; simp
+        obtain ⟨rs', cur', sh', t1, t2⟩ := shaped_feed sh op g4
+          (hf && decide ((nL - farsIn (cacheEls (L.cache.take p))) + (nR - fR) = 1))
+          (by
+            intro hcl
+            simp only [Bool.and_eq_true, decide_eq_true_eq] at hcl
+            -- the round closes: the whole cache has been replayed (what is left of it is empty)
+            have hfull : farsIn (cacheEls (L.cache.take (p + 1))) = nL := by
+              have hb1 := hbn hcl.1
+              have hc2 := hcl.2
+              rw [hfars]; omega
+            have hrest := cacheEls_all_empty _ (c.post (p + 1) hfull)
+            rw [hpo, cacheP, cacheEls_take_drop L.cache (p + 1), hrest]; simp)
+        refine ⟨rs', cur', sh', ?_, ?_, ?_⟩
+        · by_cases hcl : (hf && decide ((nL - farsIn (cacheEls (L.cache.take p))) + (nR - fR) = 1)) = true
+          · exact (t1 hcl).2
+          · have := (t2 (by simpa using hcl)).1; rw [this]; exact hne0
+        · intro hne1
+          have hcl : (hf && decide ((nL - farsIn (cacheEls (L.cache.take p))) + (nR - fR) = 1)) = false := by
+            cases hf with
+            | false => rfl
+            | true =>
+              have hb1 : b2n true = 1 := rfl
+              simp only [Bool.true_and, decide_eq_false_iff_not]
+              omega
+          rw [(t2 hcl).2]; exact hpo
+        · intro h0
+          have hcl : (hf && decide ((nL - farsIn (cacheEls (L.cache.take p))) + (nR - fR) = 1)) = true := by
+            have hb0 : b2n false = 0 := rfl
+            have hb1 : b2n true = 1 := rfl
+            cases hf with
+            | false => exfalso; omega
+            | true =>
+              simp only [Bool.true_and, decide_eq_true_eq]
+              omega
+          exact (t1 hcl).1
+
+theorem common_reset {nL nR : Nat} {L R : Side α} {S : Noir.Start.State} (c : Common nL nR L R S) :
+    Common nL nR L.reset R.reset S := by
+  have hL : L.reset = { L with missingFar := L.instances, cacheFull := true, cachePointer := 0 } := by
+    simp [Side.reset, c.lc]
+  have hR : R.reset = { R with missingFar := R.instances } := by simp [Side.reset, c.rc]
+  rw [hL, hR]
+  exact ⟨c.nLpos, c.nRpos, c.lc, c.rc, c.li, c.ri, c.rcache, c.rptr, c.sn, c.sT, c.shapes, c.post⟩
+
+/-- round 1 is over on both sides: `select` prepares the next round -/
+theorem r1_to_wait {nL nR : Nat} {futL futR : List (Batch α)} {L R : Side α} {fm : Bool}
+    {qL qR : List (Batch α)} {S : Noir.Start.State} {acc : List (Elem (Bin α))} {fL fR tL : Nat}
+    (c : Common nL nR L R S) (h : R1Rel nL nR futL futR L R fm qL qR S acc fL tL fR) (h1 : tL = nL) (h2 : fR = nR) :
+    WaitRel nL nR futR L.reset R.reset true qR S acc := by
+  have hL : L.reset = { L with missingFar := L.instances, cacheFull := true, cachePointer := 0 } := by
+    simp [Side.reset, c.lc]
+  have hR : R.reset = { R with missingFar := R.instances } := by simp [Side.reset, c.rc]
+  have hfl : fL = nL := by have := h.tf; have := h.fn; omega
+  rw [hL, hR]
+  obtain ⟨o, hcr⟩ := h.cr
+  obtain ⟨rs, cur, sh, _, s2⟩ := h.sh
+  obtain ⟨e1, e2⟩ := s2 (by omega)
+  subst e1
+  refine ⟨rfl, rfl, c.li, by rw [h.lt]; omega, by rw [h.cf, hfl], c.ri, h.rt, rfl, ?_, ?_, rs, sh, e2⟩
+  · rw [h.sf]; unfold startFar; rw [if_pos (by omega)]
+  · simpa [h2] using hcr
+
+/-- a later round is over on both sides: `select` prepares the next round -/
+theorem play_to_wait {nL nR : Nat} {futR : List (Batch α)} {L R : Side α} {fm : Bool}
+    {qR : List (Batch α)} {S : Noir.Start.State} {acc : List (Elem (Bin α))} {fR : Nat}
+    (c : Common nL nR L R S) (h : PlayRel nL nR futR L R fm qR S acc L.cache.length fR) (h2 : fR = nR) :
+    WaitRel nL nR futR L.reset R.reset true qR S acc := by
+  have hL : L.reset = { L with missingFar := L.instances, cacheFull := true, cachePointer := 0 } := by
+    simp [Side.reset, c.lc]
+  have hR : R.reset = { R with missingFar := R.instances } := by simp [Side.reset, c.rc]
+  have hfull : farsIn (cacheEls (L.cache.take L.cache.length)) = nL := by rw [List.take_length]; exact h.cf
+  rw [hL, hR]
+  obtain ⟨rs, cur, sh, hne0, _, s2⟩ := h.sh
+  have e1 := s2 (by rw [hfull]; omega)
+  subst e1
+  refine ⟨rfl, rfl, c.li, h.lt, h.cf, c.ri, h.rt, rfl, ?_, ?_, rs, sh, hne0⟩
+  · rw [h.sf, hfull]; unfold startFar; rw [if_pos (by omega)]
+  · simpa [h2] using h.cr
+
+/-- what one `select` (followed by `Start` consuming the batch, if any) must achieve -/
+def StepOk (nL nR : Nat) (futL futR : List (Batch α)) (S : Noir.Start.State) (acc : List (Elem (Bin α)))
+    (res : State α × Sel α) : Prop :=
+  res.2.isPanic = false
+  ∧ (res.2.batch? = none →
+      InvC nL nR futL futR res.1.left res.1.right res.1.firstMessage res.1.qL res.1.qR S acc)
+  ∧ (∀ b, res.2.batch? = some b →
+      InvC nL nR futL futR res.1.left res.1.right res.1.firstMessage res.1.qL res.1.qR
+        (feed S b.1 b.2).1 (acc ++ (feed S b.1 b.2).2))
+
+theorem recvRight_ok {nL nR : Nat} {futL futR : List (Batch α)} {S : Noir.Start.State}
+    {acc : List (Elem (Bin α))} (st : State α) (fm' : Bool)
+    (hblock : InvC nL nR futL futR st.left st.right st.firstMessage st.qL st.qR S acc)
+    (hrecv : ∀ r es q, st.qR = (r, es) :: q →
+      (st.right.process Bin.right Bin.rightEnd (st.left.instances + r) es).2.2 = false
+      ∧ InvC nL nR futL futR st.left (st.right.process Bin.right Bin.rightEnd (st.left.instances + r) es).1 fm'
+          st.qL q
+          (feed S (st.right.process Bin.right Bin.rightEnd (st.left.instances + r) es).2.1.1
+                  (st.right.process Bin.right Bin.rightEnd (st.left.instances + r) es).2.1.2).1
+          (acc ++ (feed S (st.right.process Bin.right Bin.rightEnd (st.left.instances + r) es).2.1.1
+                  (st.right.process Bin.right Bin.rightEnd (st.left.instances + r) es).2.1.2).2)) :
+    StepOk nL nR futL futR S acc
+      ({ (recvRight st).1 with firstMessage := if (recvRight st).2.isBlock then st.firstMessage else fm' },
+       (recvRight st).2) := by
+  unfold recvRight
+  split
+  · exact ⟨rfl, fun _ => hblock, fun b hb => by simp [Sel.batch?] at hb⟩
+  · rename_i r es q hq
+    obtain ⟨h1, h2⟩ := hrecv r es q hq
+    simp only [h1, Bool.false_eq_true, if_false]
+    refine ⟨rfl, fun hb => by simp [Sel.batch?] at hb, fun b hb => ?_⟩
+    simp only [Sel.batch?, Option.some.injEq] at hb
+    subst hb
+    exact h2
+
+theorem recvLeft_ok {nL nR : Nat} {futL futR : List (Batch α)} {S : Noir.Start.State}
+    {acc : List (Elem (Bin α))} (st : State α)
+    (hblock : InvC nL nR futL futR st.left st.right st.firstMessage st.qL st.qR S acc)
+    (hrecv : ∀ r es q, st.qL = (r, es) :: q →
+      (st.left.process Bin.left Bin.leftEnd r es).2.2 = false
+      ∧ InvC nL nR futL futR (st.left.process Bin.left Bin.leftEnd r es).1 st.right st.firstMessage q st.qR
+          (feed S (st.left.process Bin.left Bin.leftEnd r es).2.1.1
+                  (st.left.process Bin.left Bin.leftEnd r es).2.1.2).1
+          (acc ++ (feed S (st.left.process Bin.left Bin.leftEnd r es).2.1.1
+                  (st.left.process Bin.left Bin.leftEnd r es).2.1.2).2)) :
+    StepOk nL nR futL futR S acc (recvLeft st) := by
+  unfold recvLeft
+  split
+  · exact ⟨rfl, fun _ => hblock, fun b hb => by simp [Sel.batch?] at hb⟩
+  · rename_i r es q hq
+    obtain ⟨h1, h2⟩ := hrecv r es q hq
+    simp only [h1, Bool.false_eq_true, if_false]
+    refine ⟨rfl, fun hb => by simp [Sel.batch?] at hb, fun b hb => ?_⟩
+    simp only [Sel.batch?, Option.some.injEq] at hb
+    subst hb
+    exact h2
+
+theorem recvRight_ok' {nL nR : Nat} {futL futR : List (Batch α)} {S : Noir.Start.State}
+    {acc : List (Elem (Bin α))} (st : State α)
+    (hblock : InvC nL nR futL futR st.left st.right st.firstMessage st.qL st.qR S acc)
+    (hrecv : ∀ r es q, st.qR = (r, es) :: q →
+      (st.right.process Bin.right Bin.rightEnd (st.left.instances + r) es).2.2 = false
+      ∧ InvC nL nR futL futR st.left (st.right.process Bin.right Bin.rightEnd (st.left.instances + r) es).1
+          st.firstMessage st.qL q
+          (feed S (st.right.process Bin.right Bin.rightEnd (st.left.instances + r) es).2.1.1
+                  (st.right.process Bin.right Bin.rightEnd (st.left.instances + r) es).2.1.2).1
+          (acc ++ (feed S (st.right.process Bin.right Bin.rightEnd (st.left.instances + r) es).2.1.1
+                  (st.right.process Bin.right Bin.rightEnd (st.left.instances + r) es).2.1.2).2)) :
+    StepOk nL nR futL futR S acc (recvRight st) := by
+  unfold recvRight
+  split
+  · exact ⟨rfl, fun _ => hblock, fun b hb => by simp [Sel.batch?] at hb⟩
+  · rename_i r es q hq
+    obtain ⟨h1, h2⟩ := hrecv r es q hq
+    simp only [h1, Bool.false_eq_true, if_false]
+    refine ⟨rfl, fun hb => by simp [Sel.batch?] at hb, fun b hb => ?_⟩
+    simp only [Sel.batch?, Option.some.injEq] at hb
+    subst hb
+    exact h2
+
+/-- `selectBody` in a state that waits for the first loop-side batch of a round -/
+theorem body_wait {nL nR : Nat} {futL futR : List (Batch α)} {acc : List (Elem (Bin α))} (st : State α)
+    (c : Common nL nR st.left st.right st.start)
+    (h : WaitRel nL nR futR st.left st.right st.firstMessage st.qR st.start acc) :
+    StepOk nL nR futL futR st.start acc (selectBody st) := by
+  unfold selectBody
+  have hfm : st.firstMessage = true := h.fm
+  simp only [hfm, c.lc, Bool.true_or, Bool.and_self, if_true]
+  have := recvRight_ok (nL := nL) (nR := nR) (futL := futL) (futR := futR) (S := st.start) (acc := acc) st false
+    (InvC.wait c h)
+    (fun r es q hq => by
+      have h' : WaitRel nL nR futR st.left st.right st.firstMessage ((r, es) :: q) st.start acc := by
+        rw [← hq]; exact h
+      exact wait_first c h')
+  have e : (if (recvRight st).2.isBlock then st.firstMessage else false) = (recvRight st).2.isBlock := by
+    rw [hfm]; cases (recvRight st).2.isBlock <;> rfl
+  rw [e] at this
+  exact this
+
+theorem iter_wait {nL nR : Nat} {futL futR : List (Batch α)} {acc : List (Elem (Bin α))} (st : State α)
+    (c : Common nL nR st.left st.right st.start)
+    (h : WaitRel nL nR futR st.left st.right st.firstMessage st.qR st.start acc) :
+    StepOk nL nR futL futR st.start acc (select st) := by
+  have hnR := c.nRpos
+  have h1 : (st.left.isTerminated && st.right.isTerminated && decide (numTerminates st > 0)) = false := by
+    simp [Side.isTerminated, h.rt]; omega
+  have h2 : prepare st = st := by
+    unfold prepare
+    have : st.right.isEnded = false := by simp [Side.isEnded, c.rc, h.rf]; omega
+    simp [this]
+  unfold select
+  rw [h1, h2]
+  exact body_wait st c h
+
+theorem iter_term {nL nR : Nat} {futL futR : List (Batch α)} {acc : List (Elem (Bin α))} {t : Nat} (st : State α)
+    (c : Common nL nR st.left st.right st.start)
+    (h : TermRel nL nR futR st.left st.right st.firstMessage st.qR st.start acc t) :
+    StepOk nL nR futL futR st.start acc (select st) := by
+  have hnR := c.nRpos
+  have hnL := c.nLpos
+  by_cases ht : t = nR
+  · -- (1) the synthetic Terminates
+    subst ht
+    have h1 : (st.left.isTerminated && st.right.isTerminated && decide (numTerminates st > 0)) = true := by
+      simp [Side.isTerminated, h.rt, h.lt, numTerminates, c.lc, c.li]; omega
+    unfold select
+    rw [h1]
+    simp only [if_true]
+    have hnt : numTerminates st = nL := by simp [numTerminates, c.lc, c.li]
+    refine ⟨rfl, fun hb => by simp [Sel.batch?] at hb, fun b hb => ?_⟩
+    simp only [Sel.batch?, Option.some.injEq] at hb
+    subst hb
+    rw [hnt]
+    exact InvC.fin (term_synth c h)
+  · have htn := h.tn
+    have h1 : (st.left.isTerminated && st.right.isTerminated && decide (numTerminates st > 0)) = false := by
+      simp [Side.isTerminated, h.rt]; intro _ _; omega
+    have hre : st.right.isEnded = false := by simp [Side.isEnded, c.rc, h.rf]; omega
+    have h2 : prepare st = st := by unfold prepare; simp [hre]
+    have hle : st.left.isEnded = true := by simp [Side.isEnded, c.lc, Side.isTerminated, h.lt]
+    unfold select
+    rw [h1, h2]
+    unfold selectBody
+    have hfm : st.firstMessage = false := h.fm
+    have hmt : (st.right.missingTerm == st.right.instances) = false := by
+      simp [h.rt, c.ri]; have := h.t1; omega
+    simp only [hfm, Bool.false_and, Bool.false_eq_true, if_false, hmt, Bool.and_false, c.rc]
+    unfold selectRecv
+    rw [if_pos hle]
+    exact recvRight_ok' st (InvC.term t c h) (fun r es q hq => by
+      have h' : TermRel nL nR futR st.left st.right st.firstMessage ((r, es) :: q) st.start acc t := by
+        rw [← hq]; exact h
+      exact term_right c h')
+
+theorem iter_play {nL nR : Nat} {futL futR : List (Batch α)} {acc : List (Elem (Bin α))} {p fR : Nat} (st : State α)
+    (c : Common nL nR st.left st.right st.start)
+    (h : PlayRel nL nR futR st.left st.right st.firstMessage st.qR st.start acc p fR) :
+    StepOk nL nR futL futR st.start acc (select st) := by
+  have hnR := c.nRpos
+  have hnL := c.nLpos
+  have h1 : (st.left.isTerminated && st.right.isTerminated && decide (numTerminates st > 0)) = false := by
+    simp [Side.isTerminated, h.rt]; omega
+  have hle : st.left.isEnded = true := by simp [Side.isEnded, c.lc, Side.isTerminated, h.lt]
+  have hrcf : st.right.cacheFinished = true := by simp [Side.cacheFinished, c.rcache, c.rptr]
+  have hfm : st.firstMessage = false := h.fm
+  have hmt : (st.right.missingTerm == st.right.instances) = true := by simp [h.rt, c.ri]
+  unfold select
+  rw [h1]
+  simp only [Bool.false_eq_true, if_false]
+  by_cases hend : fR = nR ∧ p = st.left.cache.length
+  · -- the round is over: reset, then wait for the first batch of the next one
+    obtain ⟨e1, e2⟩ := hend
+    subst e2
+    have hre : st.right.isEnded = true := by simp [Side.isEnded, c.rc, h.rf, e1]
+    have hlcf : st.left.cacheFinished = true := by simp [Side.cacheFinished, h.ptr]
+    have hprep : prepare st = { st with left := st.left.reset, right := st.right.reset, firstMessage := true } := by
+      unfold prepare; simp [hle, hre, hlcf, hrcf]
+    rw [hprep]
+    exact body_wait (futL := futL) ({ st with left := st.left.reset, right := st.right.reset, firstMessage := true })
+      (common_reset c) (play_to_wait c h e1)
+  · have hprep : prepare st = st := by
+      unfold prepare
+      by_cases e1 : fR = nR
+      · have : p ≠ st.left.cache.length := fun e2 => hend ⟨e1, e2⟩
+        have hlcf : st.left.cacheFinished = false := by
+          simp [Side.cacheFinished, h.ptr]; have := h.pl; omega
+        simp [hlcf]
+      · have hre : st.right.isEnded = false := by simp [Side.isEnded, c.rc, h.rf]; have := h.rn; omega
+        simp [hre]
+    rw [hprep]
+    unfold selectBody
+    simp only [hfm, Bool.false_and, Bool.false_eq_true, if_false]
+    by_cases hp : p < st.left.cache.length
+    · have hlcf : st.left.cacheFinished = false := by simp [Side.cacheFinished, h.ptr]; exact hp
+      simp only [c.lc, h.full, hlcf, hmt, Bool.not_false, Bool.and_self, if_true]
+      refine ⟨rfl, fun hb => by simp [Sel.batch?] at hb, fun b hb => ?_⟩
+      simp only [Sel.batch?, Option.some.injEq] at hb
+      subst hb
+      have h' : PlayRel nL nR futR st.left st.right false st.qR st.start acc p fR := hfm ▸ h
+      exact play_replay c h' hp
+    · have hpe : p = st.left.cache.length := by have := h.pl; omega
+      subst hpe
+      have hlcf : st.left.cacheFinished = true := by simp [Side.cacheFinished, h.ptr]
+      simp only [hlcf, Bool.not_true, Bool.and_false, Bool.false_and, Bool.false_eq_true, if_false, c.rc]
+      unfold selectRecv
+      rw [if_pos hle]
+      have hfr : fR < nR := by
+        have := h.rn
+        rcases Nat.lt_or_ge fR nR with h' | h'
+        · exact h'
+        · exact absurd ⟨by omega, rfl⟩ hend
+      exact recvRight_ok' st (InvC.play _ fR c h) (fun r es q hq => by
+        have h' : PlayRel nL nR futR st.left st.right st.firstMessage ((r, es) :: q) st.start acc
+            st.left.cache.length fR := by rw [← hq]; exact h
+        exact play_right c h' hfr)
+
+theorem iter_r1 {nL nR : Nat} {futL futR : List (Batch α)} {acc : List (Elem (Bin α))} {fL tL fR : Nat} (st : State α)
+    (c : Common nL nR st.left st.right st.start)
+    (h : R1Rel nL nR futL futR st.left st.right st.firstMessage st.qL st.qR st.start acc fL tL fR) :
+    StepOk nL nR futL futR st.start acc (select st) := by
+  have hnR := c.nRpos
+  have hnL := c.nLpos
+  have htl : tL ≤ nL := by have := h.tf; have := h.fn; omega
+  have h1 : (st.left.isTerminated && st.right.isTerminated && decide (numTerminates st > 0)) = false := by
+    simp [Side.isTerminated, h.rt]; omega
+  have hle : st.left.isEnded = decide (tL = nL) := by
+    simp only [Side.isEnded, c.lc, Side.isTerminated, h.lt, if_true]
+    by_cases e : tL = nL
+    · simp [e]
+    · have : nL - tL ≠ 0 := by omega
+      simp [e, this]
+  have hre : st.right.isEnded = decide (fR = nR) := by
+    simp only [Side.isEnded, c.rc, h.rf]
+    by_cases e : fR = nR
+    · simp [e]
+    · have : nR - fR ≠ 0 := by have := h.rn; omega
+      simp [e, this]
+  have hlcf : st.left.cacheFinished = true := by simp [Side.cacheFinished, h.ptr]
+  have hrcf : st.right.cacheFinished = true := by simp [Side.cacheFinished, c.rcache, c.rptr]
+  have hfm : st.firstMessage = false := h.fm
+  have hleft : ∀ r es q, st.qL = (r, es) :: q →
+      (st.left.process Bin.left Bin.leftEnd r es).2.2 = false
+      ∧ InvC nL nR futL futR (st.left.process Bin.left Bin.leftEnd r es).1 st.right st.firstMessage q st.qR
+          (feed st.start (st.left.process Bin.left Bin.leftEnd r es).2.1.1
+                  (st.left.process Bin.left Bin.leftEnd r es).2.1.2).1
+          (acc ++ (feed st.start (st.left.process Bin.left Bin.leftEnd r es).2.1.1
+                  (st.left.process Bin.left Bin.leftEnd r es).2.1.2).2) := by
+    intro r es q hq
+    have h' : R1Rel nL nR futL futR st.left st.right st.firstMessage ((r, es) :: q) st.qR st.start acc fL tL fR := by
+      rw [← hq]; exact h
+    exact r1_left c h'
+  have hright : fR < nR → ∀ r es q, st.qR = (r, es) :: q →
+      (st.right.process Bin.right Bin.rightEnd (st.left.instances + r) es).2.2 = false
+      ∧ InvC nL nR futL futR st.left (st.right.process Bin.right Bin.rightEnd (st.left.instances + r) es).1
+          st.firstMessage st.qL q
+          (feed st.start (st.right.process Bin.right Bin.rightEnd (st.left.instances + r) es).2.1.1
+                  (st.right.process Bin.right Bin.rightEnd (st.left.instances + r) es).2.1.2).1
+          (acc ++ (feed st.start (st.right.process Bin.right Bin.rightEnd (st.left.instances + r) es).2.1.1
+                  (st.right.process Bin.right Bin.rightEnd (st.left.instances + r) es).2.1.2).2) := by
+    intro hfr r es q hq
+    have h' : R1Rel nL nR futL futR st.left st.right st.firstMessage st.qL ((r, es) :: q) st.start acc fL tL fR := by
+      rw [← hq]; exact h
+    exact r1_right c h' hfr
+  unfold select
+  rw [h1]
+  simp only [Bool.false_eq_true, if_false]
+  by_cases hend : tL = nL ∧ fR = nR
+  · obtain ⟨e1, e2⟩ := hend
+    have hprep : prepare st = { st with left := st.left.reset, right := st.right.reset, firstMessage := true } := by
+      unfold prepare; simp [hle, hre, hlcf, hrcf, e1, e2]
+    rw [hprep]
+    exact body_wait (futL := futL) ({ st with left := st.left.reset, right := st.right.reset, firstMessage := true })
+      (common_reset c) (r1_to_wait c h e1 e2)
+  · have hprep : prepare st = st := by
+      unfold prepare
+      have : (st.left.isEnded && st.right.isEnded) = false := by
+        rw [hle, hre]
+        by_cases e1 : tL = nL
+        · have : fR ≠ nR := fun e2 => hend ⟨e1, e2⟩
+          simp [this]
+        · simp [e1]
+      simp [this]
+    rw [hprep]
+    unfold selectBody
+    simp only [hfm, Bool.false_and, Bool.false_eq_true, if_false, h.full, Bool.and_false, c.rc]
+    unfold selectRecv
+    have hfr : fR ≤ nR := h.rn
+    by_cases e1 : tL = nL
+    · have e2 : fR < nR := by
+        rcases Nat.lt_or_ge fR nR with h' | h'
+        · exact h'
+        · exact absurd ⟨e1, by omega⟩ hend
+      rw [if_pos (by rw [hle]; simp [e1])]
+      exact recvRight_ok' st (InvC.r1 fL tL fR c h) (hright e2)
+    · rw [if_neg (by rw [hle]; simp [e1])]
+      by_cases e2 : fR = nR
+      · rw [if_pos (by rw [hre]; simp [e2])]
+        exact recvLeft_ok st (InvC.r1 fL tL fR c h) hleft
+      · rw [if_neg (by rw [hre]; simp [e2])]
+        have hlt : st.left.isTerminated = false := by simp [Side.isTerminated, h.lt]; omega
+        have hrt : st.right.isTerminated = false := by simp [Side.isTerminated, h.rt]; omega
+        rw [hlt, hrt]
+        simp only
+        split
+        · exact recvRight_ok' st (InvC.r1 fL tL fR c h) (hright (by omega))
+        · exact recvLeft_ok st (InvC.r1 fL tL fR c h) hleft
+        · exact recvLeft_ok ({ st with ambiguous := true }) (InvC.r1 fL tL fR c h) hleft
 
 end Noir.BinaryStart
